@@ -337,6 +337,8 @@ func c01(c *Ctx) {
 	}
 	r.Rule("R01.E", "an enum is decoded by naming its type: decodeObject sets a pointed-to uint32 value from the constructor id read from the wire, under a test that the id is a registered member of that type (comparing the id with the CRC() of the zero value refuses every member)", 1)
 	c01EnumByName(c)
+	r.Rule("R01.Q", "the hint queue is advanced before the hinted vector is read: decodeRegisteredObject removes the hint it takes from Decoder.expectedTypes before it calls popVector, whose elements may be hinted vectors themselves and must find their own hint at the head", 1)
+	c01HintQueue(c)
 	r.Rule("R01.V", "the decoder admits what the encoder emits: the count / length sanity bounds of popVector and PopRawBytes pass for every honest (size, bytes left) pair of the grid, and depend on nothing else", 2)
 	c01Admission(c)
 	tr := an.NewTracer()
@@ -443,7 +445,7 @@ func c01(c *Ctx) {
 	c02FlagsPosition(c, tr, "R01.F")
 
 	// ---- R01.F ----------------------------------------------------------------------------------
-	c01Presence(c, pp, tr)
+	c01Presence(c, pp, tr, "R01.F")
 
 	// ---- R01.W ----------------------------------------------------------------------------------
 	for _, t := range []struct {
@@ -572,10 +574,10 @@ func isBitMask(v ssa.Value, tr *an.Tracer) bool {
 }
 
 // c01Presence: R01.F.
-func c01Presence(c *Ctx, pp *pop.Population, tr *an.Tracer) {
+func c01Presence(c *Ctx, pp *pop.Population, tr *an.Tracer, rule string) {
 	r := c.R
-	enc := c.fn("R01.F", load.TLPkg, "*Encoder", "encodeStruct")
-	dec := c.fn("R01.F", load.TLPkg, "*Decoder", "decodeObject")
+	enc := c.fn(rule, load.TLPkg, "*Encoder", "encodeStruct")
+	dec := c.fn(rule, load.TLPkg, "*Decoder", "decodeObject")
 	if enc == nil || dec == nil {
 		return
 	}
@@ -593,7 +595,7 @@ func c01Presence(c *Ctx, pp *pop.Population, tr *an.Tracer) {
 			}
 		}
 	}
-	r.Check(decOK, "R01.F", "decoder:bit-test", c.pos(dec.Pos()), "the decoder skips a tagged field iff flags & (1 << tag.index) == 0")
+	r.Check(decOK, rule, "decoder:bit-test", c.pos(dec.Pos()), "the decoder skips a tagged field iff flags & (1 << tag.index) == 0")
 	// encoder: mask and emission shape
 	maskOK := false
 	for _, b := range enc.Blocks {
@@ -605,7 +607,7 @@ func c01Presence(c *Ctx, pp *pop.Population, tr *an.Tracer) {
 			}
 		}
 	}
-	r.Check(maskOK, "R01.F", "encoder:mask", c.pos(enc.Pos()), "the encoder sets flags |= 1 << tag.index (same field of the parsed tag as the decoder)")
+	r.Check(maskOK, rule, "encoder:mask", c.pos(enc.Pos()), "the encoder sets flags |= 1 << tag.index (same field of the parsed tag as the decoder)")
 	// shape: is the emission of a tagged field decided by IsZero of that field (per field) or by the accumulated flags word (per group)?
 	shape := "unrecognised"
 	var shapeSite ssa.Instruction
@@ -640,7 +642,7 @@ func c01Presence(c *Ctx, pp *pop.Population, tr *an.Tracer) {
 	}
 	switch shape {
 	case "per-group":
-		r.Hold("R01.F", "encoder:presence-shape", site, "emission of a conditional field is decided by the accumulated flags word (per group): agrees with the decoder for every type")
+		r.Hold(rule, "encoder:presence-shape", site, "emission of a conditional field is decided by the accumulated flags word (per group): agrees with the decoder for every type")
 		// … and by nothing else: with the bit set (and the field neither ignored nor a bare flag) every way round the
 		// loop passes the emission; a second condition (nil member, zero value) would omit a field the decoder reads
 		shapeIf := shapeSite.(*ssa.If)
@@ -692,7 +694,7 @@ func c01Presence(c *Ctx, pp *pop.Population, tr *an.Tracer) {
 			return nil
 		}
 		if len(appendBlk) == 0 {
-			r.Undecide("R01.F", "encoder:presence-only-by-flag", site, "no emission (append) found behind the flags test")
+			r.Undecide(rule, "encoder:presence-only-by-flag", site, "no emission (append) found behind the flags test")
 		} else if via := skips(shapeIf.Block()); via != nil {
 			pos := site
 			if len(via.Instrs) > 0 {
@@ -703,9 +705,9 @@ func c01Presence(c *Ctx, pp *pop.Population, tr *an.Tracer) {
 					}
 				}
 			}
-			r.Violate("R01.F", "encoder:presence-only-by-flag", pos, "with the group's bit set the loop can go on to the next field without emitting this one (a further condition on the field's value): the decoder reads every field of a present group, so the rest of the object is read from the wrong offset")
+			r.Violate(rule, "encoder:presence-only-by-flag", pos, "with the group's bit set the loop can go on to the next field without emitting this one (a further condition on the field's value): the decoder reads every field of a present group, so the rest of the object is read from the wrong offset")
 		} else {
-			r.Hold("R01.F", "encoder:presence-only-by-flag", site, "with the bit set every path round the loop emits the field (or aborts with an error)")
+			r.Hold(rule, "encoder:presence-only-by-flag", site, "with the bit set every path round the loop emits the field (or aborts with an error)")
 		}
 	case "per-field":
 		// agreement holds exactly for types in which no flag bit carries two fields
@@ -737,17 +739,17 @@ func c01Presence(c *Ctx, pp *pop.Population, tr *an.Tracer) {
 				}
 				if len(fs) >= 2 && nonFlag >= 1 {
 					n++
-					r.Violate("R01.F", sprintf("shared-bit:%s.%s/bit%d", shortPkg(m.Pkg), m.Name, b), c.pos(m.Pos),
+					r.Violate(rule, sprintf("shared-bit:%s.%s/bit%d", shortPkg(m.Pkg), m.Name, b), c.pos(m.Pos),
 						sprintf("fields %s share flag bit %d; the encoder decides presence per field (IsZero), so a zero-valued field of a present group is omitted while the decoder expects it", strings.Join(names, ","), b))
 				}
 			}
 		}
 		if n == 0 {
-			r.Hold("R01.F", "encoder:presence-shape", site, "per-field emission, and no registered type shares a flag bit between two fields")
+			r.Hold(rule, "encoder:presence-shape", site, "per-field emission, and no registered type shares a flag bit between two fields")
 		}
 		r.Extra["shared_flag_groups"] = n
 	default:
-		r.Undecide("R01.F", "encoder:presence-shape", site, "neither the per-field (IsZero) nor the per-group (flags & mask) emission idiom was recognised in encodeStruct")
+		r.Undecide(rule, "encoder:presence-shape", site, "neither the per-field (IsZero) nor the per-group (flags & mask) emission idiom was recognised in encodeStruct")
 	}
 	// bitflag-bool arm: writes nothing, decoder sets true without reading
 }
@@ -882,7 +884,7 @@ func c01Primitives(c *Ctx, tr *an.Tracer) {
 						}
 					}
 					if ret, ok := in.(*ssa.Return); ok && len(ret.Results) == 1 {
-						if k, ok := ret.Results[0].(*ssa.Const); ok {
+						if k, ok := an.RetVal(ret, 0).(*ssa.Const); ok {
 							if setsErr {
 								got["error"] = true
 							} else {
@@ -1142,11 +1144,11 @@ func (c *Ctx) marshalOwnsResult(rule string) {
 	n := 0
 	for _, b := range mf.Blocks {
 		ret, ok := b.Instrs[len(b.Instrs)-1].(*ssa.Return)
-		if !ok || len(ret.Results) != 2 || an.IsNilConst(ret.Results[0]) {
+		if !ok || len(ret.Results) != 2 || an.IsNilConst(an.RetVal(ret, 0)) {
 			continue
 		}
 		n++
-		src := ret.Results[0]
+		src := an.RetVal(ret, 0)
 		if call, isCall := src.(*ssa.Call); isCall && an.CalleeName(call.Common()) == "(*bytes.Buffer).Bytes" {
 			src = call.Call.Args[0] // the buffer whose content is returned
 		}
@@ -1226,4 +1228,57 @@ func c01EnumByName(c *Ctx) {
 		}
 	}
 	r.Check(guarded, "R01.E", "enum-by-name", c.pos(sets[0].Pos()), "the value is set from the id read from the wire, behind a test against the registry of enum members")
+}
+
+// c01HintQueue (R01.Q): nested bare vectors take their hints in pre-order; the outer hint has to be gone from the
+// queue when the elements of the outer vector are decoded.
+func c01HintQueue(c *Ctx) {
+	r := c.R
+	f := c.fn("R01.Q", load.TLPkg, "*Decoder", "decodeRegisteredObject")
+	if f == nil {
+		return
+	}
+	var pops []ssa.Instruction
+	for _, cs := range an.Calls(f) {
+		if strings.HasSuffix(cs.Name, "Decoder).popVector") {
+			pops = append(pops, cs.Instr)
+		}
+	}
+	var advances []ssa.Instruction
+	for _, b := range f.Blocks {
+		for _, in := range b.Instrs {
+			st, ok := in.(*ssa.Store)
+			if !ok {
+				continue
+			}
+			fa, ok := st.Addr.(*ssa.FieldAddr)
+			if !ok || !strings.HasSuffix(an.FieldName(fa.X.Type(), fa.Field), "Decoder.expectedTypes") {
+				continue
+			}
+			if sl, ok := st.Val.(*ssa.Slice); ok && sl.Low != nil {
+				advances = append(advances, in)
+			}
+		}
+	}
+	if len(pops) == 0 || len(advances) == 0 {
+		r.Undecide("R01.Q", "hints:advanced-before-elements", c.pos(f.Pos()), sprintf("expected the popVector call and the expectedTypes = expectedTypes[1:] store in decodeRegisteredObject, found %d and %d", len(pops), len(advances)))
+		return
+	}
+	ok := true
+	why := ""
+	for _, p := range pops {
+		before := false
+		for _, a := range advances {
+			if an.InstrDominates(a, p) {
+				before = true
+			}
+			if an.InstrDominates(p, a) {
+				ok, why = false, "the queue is advanced at "+c.pos(a.Pos())+", after the elements were read at "+c.pos(p.Pos())+": a vector nested in the elements is decoded with the outer hint"
+			}
+		}
+		if !before && ok {
+			ok, why = false, "no advance of the queue dominates the read of the elements at "+c.pos(p.Pos())
+		}
+	}
+	r.Check(ok, "R01.Q", "hints:advanced-before-elements", c.pos(f.Pos()), "expectedTypes = expectedTypes[1:] precedes popVector(hint.Elem()); "+why)
 }
